@@ -402,6 +402,9 @@ class Checker:
             self.run.fail("impl", key, what)
             return
         small, splan, spos = prog, plan, pos
+        if prog is None:
+            self.run.fail("impl", key, what, {"backend": backend, "plan": {str(k): v for k, v in plan.items()}, "observed": extra})
+            return
         if pos is not None:
             try:
                 p2 = dict(prog, widths=widths_of(self.world, prog))
@@ -449,6 +452,14 @@ class Checker:
                 continue
             for vb, vc in zip(rb["outs"], rc["outs"]):
                 if vc._value is not None and (vb._value is None or not L.values_equal(vc._value, vb._value)):
+                    f = run_["plan"][p]
+                    if f.get("payload") in ("wrong-dtype", "wrong-dtype-other-values") and set(f) <= {"kind", "payload", "idx"}:
+                        # the backend's result had ANOTHER element type than the inferred one - detectable, so nothing may be attached;
+                        # here something was (coerced?), and it is not the fault-free value
+                        self.impl_fail(self.pfx + "/nonconforming-result-accepted",
+                                       f"the backend returned a result of the wrong element type for {rc['t']} and a value was attached "
+                                       f"all the same: {str(vc._value)[:80]} (fault-free: {str(vb._value)[:80]})", None, run_["backend"],
+                                       run_["plan"], None, {"step": p, "fault": f})
                     return True
         return False
 
